@@ -107,6 +107,10 @@ class Encoder:
         self.outgoing = set()
 
     def name(self, addr):
+        if addr and addr not in self.names:
+            # an address the scenario did not declare (e.g. taken from an unexpected tracker reply)
+            self.names[addr] = 'p%d' % (len(self.names) + 1)
+            self.ids[addr] = ''
         return self.names.get(addr, '')
 
     def frame(self, f, trig=False, addr=None):
@@ -139,7 +143,9 @@ class Encoder:
             i, b, l = f['a']
             r = {'t': k, 'p': i + 1 if i < s.np else s.np + 1, 'b': s.block_index(i, b, l) if trig else 0}
             if trig:
-                r['good'] = i < s.np and b + l <= s.plens[i] and hashlib.sha1(s.bytes_of(i, b, l)).hexdigest() == f['sha']
+                # "good" = this block lets the piece be verified AND stored (an injected write fault makes it bad)
+                r['good'] = i < s.np and b + l <= s.plens[i] and hashlib.sha1(s.bytes_of(i, b, l)).hexdigest() == f['sha'] \
+                    and i not in s.sc.get('blocked', [])
             return r
         if k == 'BroadHave':
             return {'t': k, 'p': f['a'][0] + 1}
@@ -224,7 +230,7 @@ class Encoder:
                     rec['e'] = 'End'
                 else:
                     reason = e['reason']
-                    why = 'hash' if 'hash mismatch' in reason else 'keepalive' if 'Keep alive' in reason else \
+                    why = 'hash' if ('hash mismatch' in reason or "Can't write" in reason) else 'keepalive' if 'Keep alive' in reason else \
                         'badrequest' if ('in Request' in reason and not e.get('called')) else 'other'
                     rec.update(e='Exit', why=why, reason=reason)
                 out.append(rec)
@@ -269,7 +275,8 @@ def validate(pid, scns, traces, max_reports=8):
     problems = []
     accepted = 0
     for (geo,), idxs in groups.items():
-        npeers = max(len(scns[i].sc['peers']) for i in idxs)
+        npeers = max(max(len(scns[i].sc['peers']) for i in idxs),
+                     max((int(ev['k'][1:]) for i in idxs for ev in traces[i] if ev.get('k', '').startswith('p')), default=1))
         d, mod, cfg = geometry_module(pid, geo, max(npeers, 1))
         todo = list(idxs)
         while todo and len(problems) < max_reports:
